@@ -695,7 +695,9 @@ func headerLoopSites(c *Ctx, fn *ssa.Function, req ssa.Value, depth int) (sites 
 	adds := false
 	ir.EachCall(fn, func(call ssa.CallInstruction) {
 		n := ir.CallName(call)
-		if (n == "(net/http.Header).Add" || n == "(net/http.Header).Set") && len(call.Common().Args) == 3 {
+		// (Set inside the loop over a header's values keeps only the last of them: "carries every configured static
+		// header" means every value, so only Add counts)
+		if n == "(net/http.Header).Add" && len(call.Common().Args) == 3 {
 			if headerOfReq(call.Common().Args[0], reqVals) {
 				// key must come from the range (not a constant)
 				if _, isConst := call.Common().Args[1].(*ssa.Const); !isConst {
@@ -777,7 +779,7 @@ func staticHeadersApplied(c *Ctx, b *builder) (bool, string) {
 	sites, iteratedOnly := headerLoopSites(c, b.fn, b.req, 0)
 	if len(sites) == 0 {
 		if iteratedOnly {
-			return false, "the configured headers are iterated but not added to this request's header"
+			return false, "the configured headers are iterated but their values are not all added to this request's header (Header.Add per value; Header.Set keeps only the last value of a header configured with several)"
 		}
 		return false, "no loop over the transport's configured http.Header field: static headers are not added to this request"
 	}
